@@ -1,0 +1,22 @@
+//go:build verif
+
+package api
+
+// Accessors for the model-based verification harness (build tag "verif" only).
+
+type VerifEndpoint struct {
+	Path         string
+	Method       string
+	RequiresAuth bool
+}
+
+// VerifEndpoints lists the registered routes with their methods and auth flags.
+func (api *API) VerifEndpoints() []VerifEndpoint {
+	out := []VerifEndpoint{}
+	for _, endpoint := range api.endpoints {
+		for _, method := range endpoint.EndpointMethods() {
+			out = append(out, VerifEndpoint{Path: api.basePath + endpoint.Path(), Method: method.Method, RequiresAuth: method.RequiresAuth})
+		}
+	}
+	return out
+}
